@@ -103,6 +103,9 @@ func readBlobs(r io.Reader, blobs chan<- *blob, ctx context.Context) error {
 		if err != nil {
 			return err
 		}
+		if ctx.Err() != nil {
+			return ctx.Err()
+		}
 		select {
 		case blobs <- b:
 		case <-ctx.Done():
@@ -145,25 +148,27 @@ func ReadPBFWithOptions(r io.Reader, emit EmitWithGoroutine, options ReadOptions
 		wg.Done()
 	}()
 	var readOSMDataErr error
+	var lock sync.Mutex
 	for i := 0; i < cores; i++ {
 		go func(goroutine int) {
 			defer wg.Done()
-			for {
-				f := func(e Element) error {
-					return emit(e, goroutine)
-				}
-				select {
-				case <-ctx.Done():
+			f := func(e Element) error {
+				return emit(e, goroutine)
+			}
+			for b := range c {
+				// Blobs already queued when emit failed are dropped
+				if ctx.Err() != nil {
 					return
-				case b, ok := <-c:
-					if !ok {
-						return
-					}
-					if b.Type == blobTypeOSMData {
-						if err := readOSMDataBlob(b, f, options); err != nil {
+				}
+				if b.Type == blobTypeOSMData {
+					if err := readOSMDataBlob(b, f, options); err != nil {
+						lock.Lock()
+						if readOSMDataErr == nil {
 							readOSMDataErr = err
-							cancel()
 						}
+						lock.Unlock()
+						cancel()
+						return
 					}
 				}
 			}
